@@ -1786,6 +1786,16 @@ def c17(ctx):
             else:
                 ops += [('heap', 0), ('allocs', 0)] + [('push', 0, f, v) for v in batch] + [('allocs', 0), ('heap', 0), ('probe', 0)]
             cases.append((name, ops)); note_case(res, name, ops)
+    # every announcing form of every entry, deterministically, with the LARGEST item first and with it last: an announcement
+    # that loses its first (or last) item under-reserves by that item's size, which shows only when that item dominates
+    for name, e in pick_entries(VEC_BACKED):
+        if not (catalogue.caps(e)['reserve_items'] and catalogue.ref_ok(e)): continue
+        for j in range(len(catalogue.reserve_forms(e))):
+            for order in (0, 1):
+                hg = HistGen(ctx, name, e); hg.vg.big = False
+                batch = sorted([hg.value() for _ in range(6)], key=lambda v: len(gen.show(v)), reverse=(order == 0))
+                ops = [('resitems', 0, batch, j), ('heap', 0), ('allocs', 0)] + [('push', 0, 1, v) for v in batch] + [('allocs', 0), ('heap', 0), ('probe', 0)]
+                cases.append((name, ops)); note_case(res, name, ops)
     import math
     # 2^k pushes per entry.  The extracted model keeps indices as unary nat (ExtrOcamlBasic only), so the indices it
     # logs cost memory quadratic in the number of pushes (7 GB at 2^12 for the slice entries: one model process was
